@@ -10,6 +10,8 @@ export CARGO_TARGET_DIR="$V/target/fuzz"
 corpus="$V/target/fuzz_corpus"
 art="$V/replays/$id/fuzz_artifacts/"
 mkdir -p "$corpus" "$art"
+# artifacts of earlier runs (possibly against a different tree) must not decide this run
+mkdir -p "$art/old" && find "$art" -maxdepth 1 -type f -exec mv {} "$art/old/" \;
 i=0
 for s in 'sin(1+y)*x' 'max(1, min(2,3))' '1.0 if x > y else 73' 'to_int(10000000000.0)' 'dot(v, [1, 0, 0])' '(v + [1, 0, 0]).2' 'α * ln(z) + 2* (-z^2 + sin(4*y))' '--sin ( z) +  {another var} + 1 + 2' 'x = 123' '2.0 ^ 99999999999' '(0-2147483647-1) % (0-1)' 'fact(20)' '1<<31' 'atan2(0.2/y, x)' 'x if 0.5<2 else y'; do
     i=$((i+1)); printf '%s' "$s" >"$corpus/seed_$i"
